@@ -38,6 +38,7 @@ Mutant4 == {<<"open", "write", "write", "fsync", "write", "close", "link", "unli
 Mutant5 == {<<"open", "write", "fsync", "close", "unlink", "exit0">>}                                  \* success without link
 LiftedProgs == LET rs == ndJsonDeserialize(IOEnv.PROGS) IN {rs[i].prog : i \in 1..Len(rs)}
 SmallMsgs == {<<>>, <<120>>, <<120, 10>>, <<120, 10, 121>>}
+TinyMsgs == {<<>>, <<120>>}
 
 Sender == <<115>>
 Rcpt   == <<114>>
